@@ -10,6 +10,10 @@ def impl_encode(notes, cols, history=0):
     try:
         nd = NoteData.from_notes([gen.mknote(j) for j in notes], cols)
         out = {"ok": str(nd), "cols": nd.columns, "back": [gen.jnote(n) for n in nd]}
+        # the stream is any iterable of notes: a one-shot iterator, a generator and a tuple give the same text as the list
+        out["as_iterator"] = str(NoteData.from_notes(iter([gen.mknote(j) for j in notes]), cols))
+        out["as_generator"] = str(NoteData.from_notes((gen.mknote(j) for j in notes), cols))
+        out["as_tuple"] = str(NoteData.from_notes(tuple(gen.mknote(j) for j in notes), cols))
         if history:
             # a history on the written object: peek at the first notes, then read everything, then rebuild from the object itself
             nd2 = NoteData.from_notes([gen.mknote(j) for j in notes], cols)
@@ -87,6 +91,10 @@ def run(ctx):
                               impl=_first_diff(impl["after_partial"], notes)); continue
             if impl["rebuilt"] != impl["ok"]:
                 res.violation(case, "rebuilding from the note data object after a partial read changes the text"); continue
+        shapes = [k for k in ("as_iterator", "as_generator", "as_tuple") if impl.get(k) != impl["ok"]]
+        if shapes:
+            res.violation(dict(case, stream_given=shapes[0]), "the same notes given as another kind of iterable are written differently",
+                          impl=str(impl.get(shapes[0]))[:300], expected=impl["ok"][:300]); continue
         if impl["back"] != notes:
             res.violation(case, "notes do not read back identically", impl=_first_diff(impl["back"], notes)); continue
         if impl["cols"] != cols:
